@@ -91,12 +91,12 @@ func runC11(c *Ctx) {
 		var setKey, getKey string
 		for _, call := range AllCalls(save) {
 			if call.Common().IsInvoke() && call.Common().Method.Name() == "Set" {
-				setKey = T(call.Common().Args[0]).String()
+				setKey = T(ArgK(call, 0)).String()
 			}
 		}
 		for _, call := range AllCalls(load) {
 			if call.Common().IsInvoke() && call.Common().Method.Name() == "Get" {
-				getKey = T(call.Common().Args[0]).String()
+				getKey = T(ArgK(call, 0)).String()
 			}
 		}
 		c.Require("C11.R2 save-load-symmetry", "record key", p.Pos(load.Pos()), "saved and loaded under the same key", setKey != "" && setKey == getKey, setKey+" vs "+getKey)
@@ -104,7 +104,7 @@ func runC11(c *Ctx) {
 		okEnc := false
 		for _, call := range AllCalls(save) {
 			if call.Common().IsInvoke() && call.Common().Method.Name() == "Set" {
-				okEnc = strings.Contains(T(call.Common().Args[1]).String(), "rmt.info).Encode(")
+				okEnc = strings.Contains(T(ArgK(call, 1)).String(), "rmt.info).Encode(")
 			}
 		}
 		c.Require("C11.R2 save-load-symmetry", "record encoding", p.Pos(save.Pos()), "the value stored is info.Encode()", okEnc, "")
@@ -129,7 +129,7 @@ func runC11(c *Ctx) {
 		written := map[string]bool{}
 		for _, call := range AllCalls(saveNode) {
 			if call.Common().IsInvoke() && call.Common().Method.Name() == "Set" {
-				written[prefixOf(T(call.Common().Args[0]))] = true
+				written[prefixOf(T(ArgK(call, 0)))] = true
 			}
 		}
 		c.Require("C11.R3 node-index-symmetry", "saveNode writes", p.Pos(saveNode.Pos()), "both directions (hash→location, location→hash) are written", len(CallsInvoke(saveNode, "Set")) == 2, "")
@@ -139,15 +139,15 @@ func runC11(c *Ctx) {
 				continue
 			}
 			for _, call := range CallsInvoke(fn, "Get") {
-				pf := prefixOf(T(call.Common().Args[0]))
+				pf := prefixOf(T(ArgK(call, 0)))
 				c.Require("C11.R3 node-index-symmetry", k+": read prefix", p.InstrPos(call), "reads use a prefix saveNode writes", written[pf], "prefix "+pf)
 			}
 		}
 		for _, call := range CallsInvoke(replace, "Del") {
-			pf := prefixOf(T(call.Common().Args[0]))
+			pf := prefixOf(T(ArgK(call, 0)))
 			// informational only: a stale hash→location entry of a replaced inner node is never
 			// consulted for the behaviour C11 states (queries are leaf hashes); see DESIGN.md F31
-			c.Notes = append(c.Notes, fmt.Sprintf("replaceNode deletes key %s (prefix written by saveNode: %v) — stale inner-node entries are not removed; not an obligation", T(call.Common().Args[0]).String(), written[pf]))
+			c.Notes = append(c.Notes, fmt.Sprintf("replaceNode deletes key %s (prefix written by saveNode: %v) — stale inner-node entries are not removed; not an obligation", T(ArgK(call, 0)).String(), written[pf]))
 		}
 	}
 
